@@ -28,6 +28,7 @@ type Engine struct {
 	sizes              types.Sizes
 	runtimeErrorString types.Type
 	mapOrderForks      bool
+	poolReuse          bool
 	tier               int
 	solverKind         string
 
